@@ -157,7 +157,8 @@ def run_case(spec):
 def gen_cases(tier, seed):
     q = tier == "quick"
     # the last two: seed-sensitive meters (irregular load shapes / a supplemental column) fitted with the legal explicit seed 0
-    fams = ["daily:current", "daily:legacy", "billing", "hourly:default", "hourly:default:ghi", "caltrack", "hourly:default:irregular", "hourly:supp"]
+    # ... and a degenerate meter: a timer-driven load whose (month, weekday) load shapes are all identical (clustering has nothing to separate)
+    fams = ["daily:current", "daily:legacy", "billing", "hourly:default", "hourly:default:ghi", "caltrack", "hourly:default:irregular", "hourly:supp", "hourly:default:timer"]
     if not q:
         fams = fams + ["daily:dev-alpha-all", "daily:custom-maps", "hourly:robust", "hourly:adaptive", "hourly:clusters6", "daily:current", "daily:current", "hourly:default",
                        "billing", "daily:legacy", "hourly:bins8:ghi", "daily:dev-nofinal", "caltrack", "daily:dev-c_hdd", "hourly:noedge", "daily:legacy-dev-splits", "billing", "daily:current"]
